@@ -55,6 +55,14 @@ def _lab(v):
     return tuple(v) if isinstance(v, list) else v
 
 
+def _bound_frame(f, base):
+    """a Frame of non-uniform float bounds with f's labels, laid out as one 1-D column followed by one 2-D block (whatever f's own layout is)"""
+    rows, m = f.shape
+    cols = [np.array([base + 2 * i + 0.25 * j for i in range(rows)], dtype=np.float64) for j in range(m)]
+    lay = ((1, True),) + (((m - 1, False),) if m > 1 else ())
+    return frame_from(cols, lay, index=list(f.index.values), column_labels=list(f.columns.values))
+
+
 def ops():
     import static_frame as sf
     o = {
@@ -104,6 +112,9 @@ def ops():
         'transpose_sum': lambda f: f.T.sum(axis=0),
         'isin': lambda f: f.isin((1, 'a', True)),
         'clip': lambda f: f.clip(lower=0),
+        # bounds given as a Frame whose own block layout is fixed (one 1-D column, then one wide block): the frame's blocks and the bound blocks overlap differently per layout
+        'clip_frame_upper': lambda f: f.clip(upper=_bound_frame(f, 0.5)),
+        'clip_frame_both': lambda f: f.clip(lower=_bound_frame(f, -100.5), upper=_bound_frame(f, 1.5)),
         'drop_duplicated': lambda f: f.drop_duplicated(axis=1),
         'bloc': lambda f: f.bloc[f.isna()],
         'via_T_values': lambda f: f.T.values,
